@@ -587,6 +587,17 @@ class Gen:
         el["order"] = ch.shuffle(stmts)
         if is_macro:
             self.complete_macros.append(self.macro_stack.pop())
+        if o.get("selfclose") and not el["talns"] and all(
+                el.get(k) in (None, [])
+                for k in ("content", "replace", "switch", "define_macro",
+                          "define_slot", "fill_slot", "translate",
+                          "i18n_name", "use_macro")) and \
+                all(c["t"] == "text" and all(p[0] == "lit" for p in c["parts"])
+                    for c in el["children"]) and ch.coin(o["selfclose"]):
+            # <br ... /> : an element written without an end tag (what can
+            # fail in it are its own statements; its fallback has both tags)
+            el["children"] = []
+            el["selfclose"] = True
         return el
 
     def template_set(self, nlibs: int) -> dict:
@@ -856,6 +867,9 @@ class Ser:
                 self.w(self.sp() + '%son-error="%s' % (pre, mode + " " if mode else ""))
                 self.expr(e, "on_error")
                 self.w('"')
+        if n.get("selfclose"):
+            self.w(" />")
+            return
         self.w(">")
         self.depth += 1
         for c in n["children"]:
